@@ -30,6 +30,7 @@ CDEP = {
     "lcao_nldf_generator": "ciderpress.dft.lcao_nldf_generator",
     "lcao_interpolation": "ciderpress.dft.lcao_interpolation",
     "sdmx": "ciderpress.pyscf.sdmx",
+    "nldf_convolutions": "ciderpress.pyscf.nldf_convolutions",
     "grids_indexer": "ciderpress.dft.grids_indexer",
     "gen_cider_grid": "ciderpress.pyscf.gen_cider_grid",
 }
